@@ -57,7 +57,7 @@ func setupUniverse(token common.Address) {
 	s, _ := account.NewAccountDB(common.Hash{}, adb)
 	_, _, pos, _ := s.GetERC20Binding(common.BLANCE_NAME)
 	for _, a := range addrIDs {
-		keyOf[1000+a] = s.GetERC20Key(addrOf[a], pos)
+		keyOf[1000+a] = append([]byte{}, s.GetERC20Key(addrOf[a], pos)...) // own copy: the harness must not alias implementation buffers
 	}
 	allKeyIDs = allKeyIDs[:0]
 	seen := map[string]bool{}
@@ -254,8 +254,22 @@ func globalObs() []*Op {
 // repeated Suicide of the same account with funds arriving in between happens inside and outside brackets
 var hotAddr = -1
 
+// hotSlotA >= 0: (hotSlotA, hotSlotK) is a slot with a committed value that the program keeps removing,
+// overwriting and rewriting, before and inside brackets
+var hotSlotA, hotSlotK = -1, 0
+
 func genMut(r *hx.Rng, exotic bool) *Op {
 	a := pickAddr(r)
+	if hotSlotA >= 0 && r.Intn(3) == 0 {
+		switch r.Intn(5) {
+		case 0, 1:
+			return &Op{K: "SetData", A: hotSlotA, Key: hotSlotK, V: []byte{}, N: uint64(r.Intn(2))} // N=1: RemoveData
+		case 2:
+			return &Op{K: "GetData", A: hotSlotA, Key: hotSlotK}
+		default:
+			return &Op{K: "SetData", A: hotSlotA, Key: hotSlotK, V: valuePool[1+r.Intn(len(valuePool)-1)]}
+		}
+	}
 	if hotAddr >= 0 && r.Intn(3) == 0 {
 		switch r.Intn(8) {
 		case 0, 1, 2:
@@ -579,10 +593,12 @@ func execute(root common.Hash, adb account.AccountDatabase, prog []*Item, concre
 
 // ---------- dumps ----------
 type leaf struct {
-	exists bool
-	nonce  uint64
-	hash   int
-	store  map[int][]byte
+	exists  bool
+	nonce   uint64
+	hash    int
+	store   map[int][]byte
+	code    []byte
+	balance string
 }
 
 func dump(root common.Hash, adb account.AccountDatabase) map[int]leaf {
@@ -600,13 +616,20 @@ func dump(root common.Hash, adb account.AccountDatabase) map[int]leaf {
 		if !ok {
 			id = 12345
 		}
-		l := leaf{exists: true, nonce: s.GetNonce(ad), hash: id, store: map[int][]byte{}}
+		l := leaf{exists: true, nonce: s.GetNonce(ad), hash: id, store: map[int][]byte{}, code: s.GetCode(ad)}
 		for _, k := range allKeyIDs {
 			if v := s.GetData(ad, keyOf[k]); len(v) > 0 {
 				l.store[k] = v
 			}
 		}
 		out[a] = l
+	}
+	// balances last: GetBalance creates the token-contract object as a side effect
+	for _, a := range addrIDs {
+		if l, ok := out[a]; ok {
+			l.balance = s.GetBalance(addrOf[a]).String()
+			out[a] = l
+		}
 	}
 	return out
 }
@@ -627,6 +650,11 @@ func coqDump(d map[int]leaf) string {
 		p = append(p, fmt.Sprintf("da %d %d %d [%s]", a, l.nonce, l.hash, strings.Join(kv, "; ")))
 	}
 	return "[" + strings.Join(p, "; ") + "]"
+}
+
+// leafEqFull also compares what the reopened state answers for code bytes and balance
+func leafEqFull(x, y leaf) bool {
+	return leafEq(x, y) && bytes.Equal(x.code, y.code) && x.balance == y.balance
 }
 
 func leafEq(x, y leaf) bool {
@@ -731,6 +759,14 @@ func main() {
 		}
 		exoticQueries = false
 		pre := genItems(r, 1, r.Intn(14), false)
+		hotA := -1
+		if r.Intn(3) == 0 { // a slot with a committed value for the program to remove and rewrite
+			hotA, hotSlotK = r.Intn(6), r.Intn(4)
+			pre = append(pre, &Item{Op: &Op{K: "SetData", A: hotA, Key: hotSlotK, V: []byte{6}}})
+			if r.Intn(2) == 0 {
+				pre = append(pre, &Item{Op: &Op{K: "SetNonce", A: hotA, N: 1}})
+			}
+		}
 		if r.Intn(3) == 0 { // storage-only / empty accounts are what the node's system accounts look like
 			pre = append(pre, &Item{Op: &Op{K: "SetData", A: r.Intn(3), Key: r.Intn(4), V: []byte{9}}}, &Item{Op: &Op{K: "CreateAccount", A: 4 + r.Intn(2)}})
 		}
@@ -744,7 +780,7 @@ func main() {
 		// on a modified slot); the random program is built around them
 		var inject []*Item
 		delCommit := r.Intn(3) == 0
-		switch r.Intn(22) {
+		switch r.Intn(26) {
 		case 0:
 			x := r.Intn(6)
 			pre = []*Item{{Op: &Op{K: "CreateAccount", A: x}}, {Op: &Op{K: "SetData", A: (x + 1) % 6, Key: 1, V: []byte{3}}}}
@@ -792,6 +828,35 @@ func main() {
 			default:
 				inject = []*Item{{Op: &Op{K: "Suicide", A: x}}, credit(), {Body: []*Item{credit(), inner, credit()}, Rv: r.Intn(2) == 0, Obs: obs}}
 			}
+		case 9, 10:
+			// committed slot; removed (or overwritten) in this session BEFORE the snapshot; written again inside; reverted
+			x, k := r.Intn(6), r.Intn(4)
+			pre = append(pre, &Item{Op: &Op{K: "SetData", A: x, Key: k, V: []byte{5}}}, &Item{Op: &Op{K: "SetNonce", A: x, N: uint64(r.Intn(2))}})
+			before := &Item{Op: &Op{K: "SetData", A: x, Key: k, V: []byte{}, N: uint64(r.Intn(2))}}
+			if r.Intn(4) == 0 {
+				before = &Item{Op: &Op{K: "SetData", A: x, Key: k, V: []byte{9}}}
+			}
+			body := []*Item{{Op: &Op{K: "SetData", A: x, Key: k, V: []byte{7}}}}
+			if r.Intn(2) == 0 {
+				body = append(body, &Item{Op: &Op{K: "SetData", A: x, Key: k, V: []byte{}}}, &Item{Op: &Op{K: "SetData", A: x, Key: k, V: []byte{8}}})
+			}
+			br := &Item{Body: body, Rv: true, Obs: []*Op{{K: "GetData", A: x, Key: k}}}
+			if r.Intn(3) == 0 {
+				br = &Item{Body: []*Item{br, {Op: &Op{K: "GetData", A: x, Key: k}}}, Rv: r.Intn(2) == 0}
+			}
+			inject = []*Item{before, br}
+		case 11:
+			// balance writes to several addresses with balance reads of other addresses in between, reverted
+			x := r.Intn(6)
+			y, z := (x+1)%6, (x+2)%6
+			pre = append(pre, &Item{Op: &Op{K: "AddBalance", A: x, N: 40}}, &Item{Op: &Op{K: "AddBalance", A: y, N: 30}}, &Item{Op: &Op{K: "AddBalance", A: z, N: 20}})
+			obs := []*Op{{K: "GetBalance", A: x}, {K: "GetBalance", A: y}, {K: "GetBalance", A: z}}
+			body := []*Item{{Op: &Op{K: "AddBalance", A: x, N: uint64(1 + r.Intn(9))}}, {Op: &Op{K: "GetBalance", A: z}},
+				{Op: &Op{K: "SubBalance", A: y, N: uint64(1 + r.Intn(9))}}, {Op: &Op{K: "GetBalance", A: x}}}
+			if r.Intn(2) == 0 {
+				body = append(body, &Item{Op: &Op{K: "Transfer", A: x, B: z, N: uint64(1 + r.Intn(9))}}, &Item{Op: &Op{K: "GetBalance", A: y}})
+			}
+			inject = []*Item{{Body: body, Rv: true, Obs: obs}}
 		case 8:
 			// uint64 wrap-around of the nonce, kept or reverted
 			x := r.Intn(6)
@@ -832,8 +897,9 @@ func main() {
 		if r.Intn(3) == 0 {
 			hotAddr = r.Intn(6)
 		}
+		hotSlotA = hotA
 		prog := genItems(r, 3, 2+r.Intn(10), exotic)
-		hotAddr = -1
+		hotAddr, hotSlotA = -1, -1
 		if inject != nil {
 			at := r.Intn(len(prog) + 1)
 			prog = append(append(append([]*Item{}, prog[:at]...), inject...), prog[at:]...)
@@ -977,6 +1043,21 @@ func main() {
 				res.Violate("C04/panic:finalise-reference", fmt.Sprint(e2), ptxt)
 				bad = true
 				break
+			}
+			// read-back after Commit + reopen (fresh AccountDB on the committed root): every account of the universe
+			// with nonce, code, balance and every slot, against the reopened reference — independent of the root comparison
+			if rir == ir {
+				same := true
+				for _, a := range addrIDs {
+					if !leafEqFull(d[a], rd[a]) {
+						same = false
+						res.Violate("C04/reopen:equal-roots-but-different-leaves", fmt.Sprintf("account %d reads differently after Commit+reopen: got %s, reference %s", a, coqDump(map[int]leaf{a: d[a]}), coqDump(map[int]leaf{a: rd[a]})),
+							map[string]interface{}{"deleteEmptyObjects": del, "program": ptxt})
+					}
+				}
+				if same {
+					res.Count(fmt.Sprintf("%s/reopen-readback-equal(del=%v)", class, del), fmt.Sprintf("%s/ro%v", ptxt, del), muts > 0)
+				}
 			}
 			cl := fmt.Sprintf("%s/root-equal(del=%v)", class, del)
 			if guarded && !del {
